@@ -31,10 +31,10 @@ type Clause struct {
 }
 
 type LoopContract struct {
-	Ordinal  int
-	Invs     []*Clause
-	Modifies []*Clause
-	Ghosts   []*Clause
+	Ordinal   int
+	Invs      []*Clause
+	Modifies  []*Clause
+	Ghosts    []*Clause
 	Decreases *Clause
 }
 
@@ -44,19 +44,19 @@ type ParamDecl struct {
 }
 
 type Contract struct {
-	Pkg      string
-	Key      string // pkg.RelString
-	Sig      string
-	Recv     *ParamDecl
-	Params   []ParamDecl
-	Results  []ParamDecl
-	Clauses  []*Clause
-	Loops    map[int]*LoopContract
-	File     string
-	Line     int
-	IsIface  bool
-	Trusted  bool // contract assumed, body not verified (external / bounded stand-in)
-	Inline   bool // "inline" directive: callers inline the body instead of using the contract
+	Pkg     string
+	Key     string // pkg.RelString
+	Sig     string
+	Recv    *ParamDecl
+	Params  []ParamDecl
+	Results []ParamDecl
+	Clauses []*Clause
+	Loops   map[int]*LoopContract
+	File    string
+	Line    int
+	IsIface bool
+	Trusted bool // contract assumed, body not verified (external / bounded stand-in)
+	Inline  bool // "inline" directive: callers inline the body instead of using the contract
 }
 
 func (c *Contract) ByKind(kind string) []*Clause {
@@ -114,6 +114,14 @@ func (p *Program) parseContractText(pkg, file, text string) error {
 			parts := strings.SplitN(cl.Text, ":=", 2)
 			if len(parts) != 2 {
 				return fmt.Errorf("%s:%d: %s needs ':='", file, cl.Line, cl.Kind)
+			}
+			if i := strings.LastIndex(parts[1], " if "); i >= 0 && cl.Kind == "alias" {
+				ce, err := ParseExpr(strings.TrimSpace(parts[1][i+4:]))
+				if err != nil {
+					return fmt.Errorf("%s:%d: %v", file, cl.Line, err)
+				}
+				cl.Expr = ce
+				parts[1] = parts[1][:i]
 			}
 			l, err := ParseExpr(strings.TrimSpace(parts[0]))
 			if err != nil {
@@ -381,13 +389,13 @@ func parseParams(s string) ([]ParamDecl, error) {
 // Lines may continue until the next line starting with fun/ufun/#.
 
 type SpecFun struct {
-	Name    string
-	Params  []ParamDecl
-	Ret     string
-	Body    *Expr
+	Name     string
+	Params   []ParamDecl
+	Ret      string
+	Body     *Expr
 	Uninterp bool
-	File    string
-	Line    int
+	File     string
+	Line     int
 }
 
 func (p *Program) parseSpecText(file, text string) error {
